@@ -836,6 +836,13 @@ def run(chk, P):
     chk.floor('R01.10', 1)
     r01_11(chk, P)
     chk.floor('R01.11', 2)
+    chk.rule('R01.12', 'the decoder hands each residue back end the channels of its submap slot by slot: in mapping0_inverse the '
+             '"do not decode" flag and the vector put into a bundle slot belong to the same channel and are filed under the one '
+             'running slot counter (shared implementation with C05 R05.8, decode side only).  With a single submap slot and channel '
+             'number coincide, so only streams with two or more submaps show a flag filed under the channel number')
+    from rules import c05
+    c05.r05_8(common.Proxy(chk, 'R01.12', only=lambda fn, cons: fn == 'mapping0_inverse'), P)
+    chk.floor('R01.12', 1)
     chk.notes.append(f'R01.2 compared {ncon} table constants')
     chk.trusted += ['clang 14 front end and constant evaluator', 'the specification sources doc/*.tex of the repository are the oracle',
                     'width extraction from the TeX text (engine/spec.py) recognises the phrasings used in the pinned documents; '
